@@ -39,6 +39,81 @@ def straight(f):
     return True
 
 
+def _split_top(txt):
+    """split `a,b,c` at commas outside any bracket"""
+    out, depth, cur = [], 0, []
+    for ch in txt:
+        if ch in "([{<":
+            depth += 1
+        elif ch in ")]}>":
+            depth -= 1
+        if ch == "," and depth == 0:
+            out.append("".join(cur))
+            cur = []
+        else:
+            cur.append(ch)
+    out.append("".join(cur))
+    return out
+
+
+def _unchecked_ops(txt):
+    """`(AddWithOverflow(a,b)).0` (the checked addition of a debug build) is `Add(a,b)`"""
+    for op in ("Add", "Sub", "Mul"):
+        key = "(%sWithOverflow(" % op
+        i = txt.find(key)
+        while i >= 0:
+            depth, j = 0, i + len(key) - 1
+            while j < len(txt):
+                if txt[j] in "([{<":
+                    depth += 1
+                elif txt[j] in ")]}>":
+                    depth -= 1
+                    if depth == 0:
+                        break
+                j += 1
+            if txt[j + 1:j + 4] == ").0":
+                txt = txt[:i] + "%s(%s)" % (op, txt[i + len(key):j]) + txt[j + 4:]
+                i = txt.find(key, i)
+            else:
+                i = txt.find(key, i + 1)
+    return txt
+
+
+def norm_sums(txt):
+    """sums of several terms are written flat, terms sorted, literal terms folded: `Add(Add(a,1),Add(b,1))` = `Sum(2,a,b)` (additions of
+    small unsigned quantities: the association is form)"""
+    i = txt.find("Add(")
+    while i >= 0:
+        if i == 0 or not (txt[i - 1].isalnum() or txt[i - 1] == "_"):
+            depth, j = 0, i + 3
+            while j < len(txt):
+                if txt[j] in "([{<":
+                    depth += 1
+                elif txt[j] in ")]}>":
+                    depth -= 1
+                    if depth == 0:
+                        break
+                j += 1
+            inner = txt[i + 4:j]
+            args = _split_top(inner)
+            if len(args) == 2:
+                terms = []
+                for a in args:
+                    a = norm_sums(a)
+                    if a.startswith("Sum(") and a.endswith(")"):
+                        terms += _split_top(a[4:-1])
+                    else:
+                        terms.append(a)
+                lit = sum(int(t) for t in terms if re.fullmatch(r"\d+", t))
+                rest = sorted(t for t in terms if not re.fullmatch(r"\d+", t))
+                rep = "Sum(%s)" % ",".join(([str(lit)] if lit else []) + rest)
+                txt = txt[:i] + rep + txt[j + 1:]
+                i = txt.find("Add(", i + len(rep))
+                continue
+        i = txt.find("Add(", i + 4)
+    return txt
+
+
 def summary(f):
     from .features import effect_canon
     lines = effect_canon(f, cells=True)
@@ -73,6 +148,12 @@ def summary(f):
         if k not in names:
             names[k] = "v%d" % len(names)
         return "local:" + names[k]
+    lines = [norm_sums(_unchecked_ops(l)) for l in lines]
+    # the kept result of a pure call is a value like any other
+    lines = [re.sub(r"^CALL~ (local:\w+) = ", r"STORE \1 = ", l) for l in lines]
+    # the whole of an array as a slice: `&a[..]` and the unsizing coercion `a as &[T]` are the same view
+    lines = [re.sub(r"core::(?:array|slice)::[^()]*?::index(?:_mut)?\(([^(),]*),core::ops::RangeFull::RangeFull\{\}\)", r"\1", l) for l in lines]
+    lines = [re.sub(r"\(([^()]+) as &(?:mut )?\[\w+\]\)", r"\1", l) for l in lines]
     return [re.sub(r"local:(\w+)", L, l) for l in lines]
 
 
